@@ -70,6 +70,7 @@ type c11Client struct {
 	wantBody []byte
 	raw      []byte
 	gone     bool // client closed it itself
+	vanished bool // ... while its exchange was in flight
 	sentLate string // vid of a request sent after closing was proven
 	echoOK   *bool
 	respDone chan c11Resp
@@ -291,10 +292,10 @@ func runC11once(c C11Case) (fails []vstat.Failure) {
 				fmt.Fprintf(cl.conn, "GET http://%s/late HTTP/1.1\r\nHost: %s\r\nX-Vid: %s\r\n\r\n", origin.Addr, origin.Addr, cl.sentLate)
 			}
 		case "disconnect":
-			if !cl.awaiting {
-				cl.gone = true
-				cl.conn.Close()
-			}
+			// also in the middle of an exchange: the client vanishes, the proxy must still wind the connection up
+			cl.gone = true
+			cl.vanished = cl.awaiting
+			cl.conn.Close()
 		case "newconn":
 			pc, err := net.DialTimeout("tcp", addr, time.Second)
 			if err == nil {
@@ -331,6 +332,10 @@ func runC11once(c C11Case) (fails []vstat.Failure) {
 	// ---- in-flight exchanges complete
 	for i, cl := range clients {
 		if !cl.awaiting {
+			continue
+		}
+		if cl.vanished {
+			<-cl.respDone
 			continue
 		}
 		if fw != nil && cl.releasedAt.After(tShutdown.Add(deadline-60*time.Millisecond)) {
